@@ -281,7 +281,7 @@ impl<'a> Wire<'a> {
         }
     }
 
-    fn wire_round(&mut self, mid: Option<(u8, &Ev)>) {
+    fn wire_round(&mut self, mid: Option<(u8, &Ev)>) -> usize {
         self.poll_tasks();
         self.round += 1;
         // deliver what is due, in (due, emission) order
@@ -314,11 +314,11 @@ impl<'a> Wire<'a> {
             // loopback and own-address packets must never reach the wire
             if p.dst.is_loopback() || (self.d.owner(p.src).is_some() && self.d.owner(p.src) == self.d.owner(p.dst)) {
                 self.fail("LoopbackOnWire", format!("{} left its host although it is addressed to the host itself", desc(&p)));
-                return;
+                return n;
             }
             let v = self.evaluate(&p);
             if self.v.is_some() {
-                return;
+                return n;
             }
             self.pkt_seq += 1;
             match v {
@@ -344,6 +344,7 @@ impl<'a> Wire<'a> {
         }
         self.rep.steps += 1;
         self.log.tag_u64(n as u64);
+        n
     }
 
     fn drain_udp(&mut self) {
@@ -421,6 +422,7 @@ impl<'a> Wire<'a> {
             Ev::Round { mid } => {
                 let m = mid.as_ref().map(|(p, e)| (*p, e.as_ref()));
                 self.wire_round(m);
+                self.drain_udp();
             }
         }
     }
@@ -451,11 +453,19 @@ fn exec_wire(w: &mut Wire<'_>) {
         }
     }
     // flush: everything still held is delivered, TCP keeps being evaluated
-    let max_rounds = w.inflight.iter().map(|e| e.0).max().unwrap_or(w.round).saturating_sub(w.round) + 3;
-    for _ in 0..max_rounds.min(64) {
-        w.wire_round(None);
+    let mut quiet = 0;
+    for _ in 0..200 {
+        let n = w.wire_round(None);
         if w.v.is_some() {
             return;
+        }
+        if n == 0 && w.inflight.is_empty() {
+            quiet += 1;
+            if quiet >= 2 {
+                break;
+            }
+        } else {
+            quiet = 0;
         }
     }
     w.drain_udp();
@@ -551,3 +561,290 @@ fn run_wire(sc: &WireSc, keep: bool) -> Report {
     rep
 }
 
+
+// ------------------------------------------------------------------------------------------------
+// generator, Property
+
+const DELAYS: [u32; 7] = [0, 300, 1000, 1000, 2000, 2500, 3000];
+
+fn gen_table(rng: &mut Rng) -> Vec<V> {
+    let n = rng.usize(1, 4);
+    (0..n)
+        .map(|_| match rng.weighted(&[45, 15, 40]) {
+            0 => V::Pass,
+            1 => V::Drop,
+            _ => V::Deliver(*rng.pick(&DELAYS)),
+        })
+        .collect()
+}
+
+fn gen_hosts(rng: &mut Rng, n: usize) -> Vec<Vec<String>> {
+    (0..n)
+        .map(|h| {
+            let k = rng.usize(1, 2);
+            (0..k).map(|a| if rng.chance(4, 5) { format!("10.0.{h}.{}", a + 1) } else { format!("fd00::{h}:{}", a + 1) }).collect()
+        })
+        .collect()
+}
+
+fn gen_wire(rng: &mut Rng) -> WireSc {
+    let nh = rng.usize(2, 3);
+    let hosts = gen_hosts(rng, nh);
+    let cfg = NetCfg { retx_threshold: rng.range(2, 3) as u32, retx_max: rng.range(3, 5) as u32, backlog: 16 };
+    let mut next_id = 1u32;
+    let mut pre = Vec::new();
+    for _ in 0..rng.below(3) {
+        pre.push(RuleSpec { id: next_id, table: gen_table(rng) });
+        next_id += 1;
+    }
+    let mut held: Vec<u32> = Vec::new();
+    let mut evs = Vec::new();
+    let mut conns = 0u32;
+    let n = rng.usize(10, 40);
+    let rule_op = |rng: &mut Rng, next_id: &mut u32, held: &mut Vec<u32>| -> Ev {
+        if !held.is_empty() && rng.chance(2, 5) {
+            let i = rng.below(held.len() as u64) as usize;
+            Ev::Uninstall { id: held.remove(i) }
+        } else {
+            let id = *next_id;
+            *next_id += 1;
+            let keep = match rng.weighted(&[70, 15, 15]) {
+                0 => Keep::Guard,
+                1 => Keep::Forget,
+                _ => Keep::MemForget,
+            };
+            if keep == Keep::Guard {
+                held.push(id);
+            }
+            let via = if rng.bool() { Via::Guard } else { Via::Task(rng.below(nh as u64) as usize) };
+            Ev::Install { via, rule: RuleSpec { id, table: gen_table(rng) }, keep }
+        }
+    };
+    for _ in 0..n {
+        match rng.weighted(&[20, 30, 5, 6, 3, 36]) {
+            0 => evs.push(rule_op(rng, &mut next_id, &mut held)),
+            1 => {
+                let from = rng.below(nh as u64) as usize;
+                let to = if rng.chance(1, 4) { from } else { rng.below(nh as u64) as usize };
+                let sel = rng.below(hosts[to].len() as u64 + if to == from { 2 } else { 0 }) as u8;
+                for _ in 0..rng.range(1, 3) {
+                    evs.push(Ev::Udp { from, to, sel });
+                }
+            }
+            2 => {
+                let from = rng.below(nh as u64) as usize;
+                let to = rng.below(nh as u64) as usize;
+                let sel = rng.below(hosts[to].len() as u64 + if to == from { 1 } else { 0 }) as u8;
+                conns += 1;
+                evs.push(Ev::TcpConnect { conn: conns, from, to, sel });
+            }
+            3 if conns > 0 => evs.push(Ev::TcpWrite { conn: rng.range(1, conns as u64) as u32, client: rng.bool() }),
+            4 if conns > 0 => evs.push(Ev::TcpClose { conn: rng.range(1, conns as u64) as u32, client: rng.bool() }),
+            _ => {
+                let mid = if rng.chance(1, 4) { Some((rng.below(4) as u8, Box::new(rule_op(rng, &mut next_id, &mut held)))) } else { None };
+                evs.push(Ev::Round { mid });
+            }
+        }
+    }
+    WireSc { hosts, cfg, tick_us: 1000, pre, evs }
+}
+
+fn gen_fixture(rng: &mut Rng) -> FixSc {
+    let lo = rng.chance(1, 8);
+    let n = if lo { 1 } else { rng.usize(2, 3) };
+    let nodes = if lo { vec![vec![]] } else { gen_hosts(rng, n) };
+    let mut rules = Vec::new();
+    for i in 0..rng.usize(1, 4) {
+        let at_ms = rng.range(1, 6) as u32;
+        let until_ms = if rng.chance(1, 3) { None } else { Some(at_ms + rng.range(1, 8) as u32) };
+        rules.push(FixRule { spec: RuleSpec { id: i as u32 + 1, table: gen_table(rng) }, node: rng.below(n as u64) as usize, at_ms, until_ms });
+    }
+    let mut sends = Vec::new();
+    for _ in 0..rng.usize(3, 10) {
+        let from = rng.below(n as u64) as usize;
+        let to = if lo || rng.chance(1, 5) { from } else { rng.below(n as u64) as usize };
+        let sel = rng.below(nodes[to].len() as u64 + if to == from { 2 } else { 0 }) as u8;
+        sends.push(FixSend { at_ms: rng.range(0, 10) as u32, from, to, sel, burst: rng.range(1, 4) as u8, tcp: rng.chance(1, 6) });
+    }
+    FixSc { lo, nodes, rules, sends, run_ms: 22 }
+}
+
+impl Property for C19 {
+    const ID: &'static str = "C19";
+    const LEVEL: &'static str = "exploration";
+    type Scenario = Scenario;
+
+    fn rule() -> String {
+        "two seeded families. (wire, 60%) 2-3 hosts with 1-2 addresses, 0-2 rules installed with Net::rule before enter, then 10-40 events: rule install through EnterGuard::rule or the free rule() called from a polled task, guard kept / RuleGuard::forget / std::mem::forget, guard drop (also between two packets of one egress batch), tagged UDP datagrams between all hosts incl. loopback and own-address destinations, TCP connect/write/close, wire rounds; every rule is a table tag -> Pass|Drop|Deliver(0|0.3|1|2|2.5|3 ms) that logs each invocation; at every EnterGuard::evaluate the logged invocations and the returned verdict are compared with the reference chain (alive rules in installation order up to and including the first non-Pass; none/all Pass => Pass; a dropped guard's rule never again), the wire then honours the verdict and at the end each datagram must have been received exactly by its destination iff it was not dropped; own-host packets must never appear on the wire. (fixture, 40%) fixture::ClientServer with 1-2 servers (1/8: fixture::lo): an observer rule stamps each packet's egress instant on the paused tokio clock, 1-4 further table rules are installed from tasks at 1-6 ms and dropped at a later instant or forgotten, nodes send bursts of tagged datagrams and single tagged TCP messages at 0-10 ms; receivers stamp receipt; judged: first-match chain per evaluation, Deliver(d) => receipt - egress in [d, d+1ms], Pass => [0, 1ms], Drop => never received, equal deadlines at one socket => emission order, own-host traffic delivered and never shown to rules. Non-trivial: some packet was evaluated while >=2 alive rules gave different verdicts for it; distinct = digest of event kinds, verdict kinds, chain lengths".into()
+    }
+    fn components_real() -> Vec<&'static str> {
+        vec!["turmoil-net: Net::rule / EnterGuard::rule / rule() / RuleGuard (drop, forget) / Net::evaluate, Kernel::egress loopback fold-back, fixture::ClientServer, fixture::lo, fixture::Scheduler (pending queue, tick), shim sockets; tokio paused current-thread runtime inside the fixtures"]
+    }
+    fn components_stub() -> Vec<&'static str> {
+        vec!["wire family: the wire and the task polling are the harness's (it calls evaluate itself, as the crate intends); fixture family: only the workload futures and the rule closures are ours"]
+    }
+    fn assumptions() -> Vec<String> {
+        vec![
+            "the fixtures' tick is the crate-private constant fixture::TICK = 1 ms; 'within one tick after the deadline' is read as the closed interval [d, d + 1 ms] on the virtual clock".into(),
+            "packets with different deadlines that fall due in the same tick are not required to arrive in any order".into(),
+            "TCP messages under rules: the read instant must lie in the window of at least one non-dropped emission of the segment (retransmissions are further emissions); non-delivery of TCP data is not judged".into(),
+            "rule operations from inside a rule's own on_packet (re-entrancy) are not generated".into(),
+        ]
+    }
+    fn budget(tier: Tier) -> u64 {
+        match tier {
+            Tier::Quick => 3_000_000,
+            Tier::Thorough => 24_000_000,
+        }
+    }
+
+    fn generate(rng: &mut Rng, _idx: u64, _tier: Tier) -> Scenario {
+        if rng.chance(3, 5) {
+            Scenario::Wire(gen_wire(rng))
+        } else {
+            Scenario::Fixture(gen_fixture(rng))
+        }
+    }
+
+    fn run(sc: &Scenario, keep: bool) -> Report {
+        match sc {
+            Scenario::Wire(w) => run_wire(w, keep),
+            Scenario::Fixture(f) => run_fixture(f, keep),
+        }
+    }
+
+    fn shrink(sc: &Scenario) -> Vec<Scenario> {
+        let mut out = Vec::new();
+        match sc {
+            Scenario::Wire(w) => {
+                for cut in [w.evs.len() / 2, w.evs.len().saturating_sub(1)] {
+                    if cut > 0 && cut < w.evs.len() {
+                        let mut c = w.clone();
+                        c.evs.truncate(cut);
+                        out.push(Scenario::Wire(c));
+                    }
+                }
+                for i in 0..w.evs.len() {
+                    let mut c = w.clone();
+                    c.evs.remove(i);
+                    out.push(Scenario::Wire(c));
+                }
+                for i in 0..w.pre.len() {
+                    let mut c = w.clone();
+                    c.pre.remove(i);
+                    out.push(Scenario::Wire(c));
+                }
+                for (i, e) in w.evs.iter().enumerate() {
+                    match e {
+                        Ev::Round { mid: Some((_, op)) } => {
+                            let mut c = w.clone();
+                            c.evs[i] = Ev::Round { mid: None };
+                            out.push(Scenario::Wire(c));
+                            let mut c = w.clone();
+                            c.evs[i] = (**op).clone();
+                            c.evs.insert(i + 1, Ev::Round { mid: None });
+                            out.push(Scenario::Wire(c));
+                        }
+                        Ev::Install { via, rule, keep } => {
+                            if rule.table.len() > 1 {
+                                for k in 0..rule.table.len() {
+                                    let mut c = w.clone();
+                                    let mut r = rule.clone();
+                                    r.table = vec![rule.table[k]];
+                                    c.evs[i] = Ev::Install { via: via.clone(), rule: r, keep: keep.clone() };
+                                    out.push(Scenario::Wire(c));
+                                }
+                            }
+                            if *via != Via::Guard {
+                                let mut c = w.clone();
+                                c.evs[i] = Ev::Install { via: Via::Guard, rule: rule.clone(), keep: keep.clone() };
+                                out.push(Scenario::Wire(c));
+                            }
+                        }
+                        _ => {}
+                    }
+                }
+                if w.hosts.len() > 2 {
+                    let last = w.hosts.len() - 1;
+                    let used = w.evs.iter().any(|e| match e {
+                        Ev::Udp { from, to, .. } | Ev::TcpConnect { from, to, .. } => *from == last || *to == last,
+                        Ev::Install { via: Via::Task(h), .. } => *h == last,
+                        _ => false,
+                    });
+                    if !used {
+                        let mut c = w.clone();
+                        c.hosts.pop();
+                        out.push(Scenario::Wire(c));
+                    }
+                }
+            }
+            Scenario::Fixture(f) => {
+                for i in 0..f.sends.len() {
+                    let mut c = f.clone();
+                    c.sends.remove(i);
+                    out.push(Scenario::Fixture(c));
+                }
+                for i in 0..f.rules.len() {
+                    let mut c = f.clone();
+                    c.rules.remove(i);
+                    out.push(Scenario::Fixture(c));
+                }
+                for i in 0..f.sends.len() {
+                    if f.sends[i].burst > 1 {
+                        let mut c = f.clone();
+                        c.sends[i].burst -= 1;
+                        out.push(Scenario::Fixture(c));
+                    }
+                    if f.sends[i].at_ms > 0 {
+                        let mut c = f.clone();
+                        c.sends[i].at_ms = 0;
+                        out.push(Scenario::Fixture(c));
+                    }
+                }
+                for i in 0..f.rules.len() {
+                    if f.rules[i].spec.table.len() > 1 {
+                        for k in 0..f.rules[i].spec.table.len() {
+                            let mut c = f.clone();
+                            c.rules[i].spec.table = vec![f.rules[i].spec.table[k]];
+                            out.push(Scenario::Fixture(c));
+                        }
+                    }
+                    if f.rules[i].until_ms.is_some() {
+                        let mut c = f.clone();
+                        c.rules[i].until_ms = None;
+                        out.push(Scenario::Fixture(c));
+                    }
+                    if f.rules[i].at_ms > 1 {
+                        let mut c = f.clone();
+                        c.rules[i].at_ms = 1;
+                        out.push(Scenario::Fixture(c));
+                    }
+                }
+            }
+        }
+        out
+    }
+
+    fn signature(sc: &Scenario) -> String {
+        match sc {
+            Scenario::Wire(w) => format!(
+                "wire pre{} {}",
+                w.pre.len(),
+                w.evs
+                    .iter()
+                    .map(|e| match e {
+                        Ev::Install { .. } => "I",
+                        Ev::Uninstall { .. } => "U",
+                        Ev::Udp { .. } => "u",
+                        Ev::TcpConnect { .. } => "c",
+                        Ev::TcpWrite { .. } => "w",
+                        Ev::TcpClose { .. } => "x",
+                        Ev::Round { mid: None } => "R",
+                        Ev::Round { .. } => "M",
+                    })
+                    .collect::<String>()
+            ),
+            Scenario::Fixture(f) => format!("fixture{} rules{} sends{}", if f.lo { "-lo" } else { "" }, f.rules.len(), f.sends.len()),
+        }
+    }
+}
